@@ -346,7 +346,8 @@ def gen(rs: int, index: int, tier: str) -> Dict[str, Any]:
         allf.append(f)
     re_ = S.rng("entries")
     entries = [{"ep": "direct", "kind": re_.choice(["passive", "passive", "active", "vpassive", "vactive"]),
-                "dt": re_.choice(["bytes", "bytearray", "message"])}]
+                "dt": re_.choice(["bytes", "bytearray", "message"]),
+                "consume": re_.choice(["all", "all", "first"])}]
     extra = re_.choice(["text", "bus", "both", "none"])
     if extra in ("text", "both"):
         entries.append({"ep": "text", "kind": re_.choice(["passive", "vpassive", "active"])})
@@ -362,7 +363,7 @@ def gen(rs: int, index: int, tier: str) -> Dict[str, Any]:
         "faults": faults_applied,
         "entries": entries,
         "padding": re_.choice([0, 8]),
-        "text": {"style": rt.randint(0, 7), "crlf": rt.random() < 0.2, "last_newline": rt.random() < 0.8},
+        "text": {"style": rt.randint(0, 15), "crlf": rt.random() < 0.2, "last_newline": rt.random() < 0.8},
     }
 
 
@@ -663,7 +664,7 @@ def execute(trace: Dict[str, Any]) -> Dict[str, Any]:
                 rec_ranges[mid] = (idxs, payload)
         if ent["ep"] == "direct":
             res = W.feed_direct(frames, ent["kind"], monitored, tx_ids, ent.get("dt", "bytes"),
-                                trace.get("padding", 0), restarts=segs)
+                                trace.get("padding", 0), restarts=segs, consume=ent.get("consume", "all"))
         elif ent["ep"] == "text":
             res = run_text_segments(trace, ent, frames, metas, segs)
         else:
